@@ -460,7 +460,8 @@ func (w *World) resolveCanary(k types.NamespacedName, how string, round int) {
 	case "wait":
 		// a canary that cannot even start (fewer valid nodes than replicas: the reconcile reports an error, C15)
 		// does not get anywhere by waiting: after a while the user validates the new version instead
-		if e.Status.Canary == nil && round > 15 {
+		// (status.canary may also still name the replica set of an earlier canary: the reconcile fails before it writes)
+		if (e.Status.Canary == nil || e.Status.Canary.ReplicaSet != crs) && round > 15 {
 			if e.Annotations[oracle.AnnCanaryValid] != crs {
 				w.C.Tracef("the canary has not started after %d rounds: the user validates %s", round, crs)
 				_ = w.C.SetEDSAnnotation(k.Namespace, k.Name, oracle.AnnCanaryValid, crs)
